@@ -3,11 +3,11 @@ package main
 import (
 	"fmt"
 
+	"github.com/mit-pdos/go-journal/lockmap"
 	"github.com/mit-pdos/go-nfsd/fh"
 	"github.com/mit-pdos/go-nfsd/fstxn"
 	"github.com/mit-pdos/go-nfsd/nfs"
 	"github.com/mit-pdos/go-nfsd/nfstypes"
-	"github.com/mit-pdos/go-journal/lockmap"
 
 	"verifsim/simdisk"
 	"verifsim/simrt"
